@@ -476,6 +476,10 @@ func (i *Interp) call(caller *frame, callpos token.Pos, fn value, args []value) 
 	panic(fmt.Sprintf("cannot call %T", fn))
 }
 
+// useBody is returned by an intrinsic that declines (e.g. a concrete fast
+// path given symbolic operands): the function's SSA body is executed instead.
+type useBody struct{}
+
 type hostFunc struct {
 	f func(i *Interp, caller *frame, args []value) value
 }
@@ -493,7 +497,9 @@ func (i *Interp) callSSA(caller *frame, callpos token.Pos, fn *ssa.Function, arg
 	}
 	fr := &frame{i: i, caller: caller, fi: fi, fn: fn, callpos: callpos}
 	if fi.intr != nil {
-		return fi.intr(fr, args)
+		if r := fi.intr(fr, args); r != (useBody{}) {
+			return r
+		}
 	}
 	if fn.Name() == "init" && fn.Pkg != nil && fn.Signature.Recv() == nil && skipInit(fn.Pkg.Pkg.Path()) {
 		return nil
@@ -558,7 +564,13 @@ func (fr *frame) run() {
 		}
 		r := recover()
 		switch r.(type) {
-		case pathEnd, unsupported, failPanic:
+		case unsupported:
+			if u := r.(unsupported); !strings.Contains(u.what, " [") {
+				u.what += " [" + stackOf(fr) + "]"
+				r = u
+			}
+			panic(r)
+		case pathEnd, failPanic:
 			panic(r)
 		case targetPanic:
 			if tp := r.(targetPanic); tp.stack == "" {
@@ -571,7 +583,7 @@ func (fr *frame) run() {
 		default:
 			// a host run-time error inside the executor: an executor defect or an
 			// unmodelled situation, never a property of the program.
-			panic(unsupported{fmt.Sprintf("internal: %v in %s", r, fr.fi.name)})
+			panic(unsupported{fmt.Sprintf("internal: %v in %s [%s]", r, fr.fi.name, stackOf(fr))})
 		}
 		fr.panicking = true
 		fr.panic = r
